@@ -1,7 +1,7 @@
 """C17 — CLI-level history check (see history.py / history_check.py)."""
 import history_check as HC
 
-RULE = 'histories: gwf cancel (patterns incl. non-matching / none + --force / prompt y, n, EOF) on clusters with never-submitted, pending, running and finished jobs, a failing cancel command at position 1-3, then status, run, status; Slurm, SGE and LSF fakes; non-trivial = >=3 targets'
+RULE = 'histories: gwf cancel (patterns incl. non-matching / none + --force / prompt y, n, EOF) on clusters with never-submitted, pending, running and finished jobs, a failing cancel command at position 1-3, then status, run, status; Slurm, SGE and LSF fakes and a fake pool server; plus 800 [20 000] operation sequences with cancels of waiting and running tasks that have dependencies on the REAL pool scheduler under a virtual clock; non-trivial = >=3 targets'
 ASSUME = ["the simulated cluster (harness/fakes/fakecluster.py) stands for the schedulers; output formats and dependency semantics follow their documentation",
           "commands run in-process through click's CliRunner (same code path as the gwf executable)",
           "file modification times are set with os.utime to distinct integer seconds so that order is observable"]
@@ -14,7 +14,14 @@ def nontrivial(r):
 def run(chk):
     n = 200 if chk.tier == "quick" else 2500
     HC.run_prop(chk, "C17", ["C17", "C17:sge", "C17:lsf", "C17:local"], n, RULE, ASSUME, nontrivial)
+    # what a cancel does inside the REAL local pool (the CLI histories above talk to a fake pool server): only the
+    # cancelled task and the tasks waiting for it end CANCELLED; nothing it depends on is torn down
+    import pool_check
+    pool_check.cancel_subrun(chk, "C17", 800 if chk.tier == "quick" else 20000)
 
 
 def replay(chk, data):
+    if "ops" in data.get("input", {}):
+        import pool_check
+        return pool_check.replay_prop(chk, "C17", RULE, data)
     return HC.replay_prop(chk, "C17", data, RULE)
